@@ -7,16 +7,19 @@ EXTENDS IncrUpdate, TLC, Json
 
 CONSTANTS MaxEdits, Stride
 
-Vals == << <<72, 105>>, <<40, 97, 41, 92>>, <<233, 8364>>, <<20013>>, <<>>, <<65, 10, 66>>, <<32, 32>> >>
+\* the last two fit in one byte per character but mean something else in PDFDocEncoding than in Latin-1 (U+00A0, U+00AD, U+0080)
+Vals == << <<72, 105>>, <<40, 97, 41, 92>>, <<233, 8364>>, <<20013>>, <<>>, <<65, 10, 66>>, <<32, 32>>, <<49, 48, 160, 107, 103>>, <<173, 128, 255>> >>
 F(has, v) == [has |-> has, v |-> v]
-Bases == << [cfg |-> "classic", fields |-> <<F(TRUE, <<97>>), F(FALSE, <<>>), F(TRUE, <<233>>)>>],
-            [cfg |-> "xrefstream", fields |-> <<F(FALSE, <<>>), F(TRUE, <<98>>), F(FALSE, <<>>)>>],
-            [cfg |-> "modern", fields |-> <<F(TRUE, <<99>>), F(FALSE, <<>>), F(FALSE, <<>>)>>],
-            [cfg |-> "uncompressed", fields |-> <<F(FALSE, <<>>), F(FALSE, <<>>), F(TRUE, <<100>>)>>] >>
+\* `tail`: what follows %%EOF in the base - the line feed the library writes, CR LF, nothing, a blank line, blanks
+Bases == << [cfg |-> "classic", tail |-> "crlf", fields |-> <<F(TRUE, <<97>>), F(FALSE, <<>>), F(TRUE, <<233>>)>>],
+            [cfg |-> "xrefstream", tail |-> "lf", fields |-> <<F(FALSE, <<>>), F(TRUE, <<98>>), F(FALSE, <<>>)>>],
+            [cfg |-> "modern", tail |-> "none", fields |-> <<F(TRUE, <<99>>), F(FALSE, <<>>), F(FALSE, <<>>)>>],
+            [cfg |-> "uncompressed", tail |-> "blank", fields |-> <<F(FALSE, <<>>), F(FALSE, <<>>), F(TRUE, <<100>>)>>],
+            [cfg |-> "classic", tail |-> "spaces", fields |-> <<F(FALSE, <<>>), F(TRUE, <<101>>), F(FALSE, <<>>)>>] >>
 Edits == {[k |-> "fill", f |-> f, v |-> Vals[v]] : f \in 0..2, v \in {1, 2, 3, 4, 5}}
          \cup {[k |-> "fill_many", fs |-> <<[f |-> 0, v |-> Vals[1]], [f |-> 2, v |-> Vals[v]]>>] : v \in {2, 4}}
-         \cup {[k |-> "note_add", page |-> p, x |-> x, v |-> Vals[v]] : p \in {0, 1}, x \in {10, 35}, v \in {1, 3, 5, 7}}
-         \cup {[k |-> "note_update", which |-> w, x |-> 60, v |-> Vals[v]] : w \in 0..1, v \in {2, 5}}
+         \cup {[k |-> "note_add", page |-> p, x |-> x, v |-> Vals[v]] : p \in {0, 1}, x \in {10, 35}, v \in {1, 3, 5, 7, 8, 9}}
+         \cup {[k |-> "note_update", which |-> w, x |-> 60, v |-> Vals[v]] : w \in 0..1, v \in {2, 5, 8}}
          \cup {[k |-> "note_remove", which |-> w] : w \in 0..1}
 
 \* the model itself
@@ -32,11 +35,11 @@ ES == SetSeq(Edits)
 NE == Len(ES)
 \* histories: a deterministic stride through the sequences of up to MaxEdits edits
 Hist(k) == [base |-> Bases[(k % Len(Bases)) + 1],
-            edits |-> [x \in 1..(((k \div 4) % MaxEdits) + 1) |-> ES[((k * (7 + 3 * x) + x * x * 5) % NE) + 1]]]
+            edits |-> [x \in 1..(((k \div Len(Bases)) % MaxEdits) + 1) |-> ES[((k * (7 + 3 * x) + x * x * 5) % NE) + 1]]]
 VARIABLE done
 Init == done = FALSE
 Next == /\ ~done
-        /\ \A k \in 1..(Stride * 4 * MaxEdits) : PrintT(<<"REPLAY", ToJson(Hist(k))>>)
+        /\ \A k \in 1..(Stride * Len(Bases) * MaxEdits) : PrintT(<<"REPLAY", ToJson(Hist(k))>>)
         \* two successive fills of different fields, then a third edit: the case in which a reader that chains the new
         \* section to the wrong /Prev loses the first fill
         /\ \A b \in 1..Len(Bases) : PrintT(<<"REPLAY", ToJson([base |-> Bases[b], edits |-> <<[k |-> "fill", f |-> 0, v |-> Vals[1]], [k |-> "fill", f |-> 1, v |-> Vals[3]],
